@@ -107,6 +107,10 @@ Definition direct_post2 n (x : fvec) (perm : option (seq nat)) : fmx :=
 Definition eigen_post n (v : fvec) := let V := unstack n v in (V, ftr n V).
 (* _steadystate_svd: Qobj(rho) (no Hermiticity flag forced); rho / rho.tr() *)
 Definition svd_post n (v : fvec) := let V := unstack n v in (V, ftr n V).
+(* _steadystate_svd: u, s, vh = svd(L); vec = split_columns(vh.adjoint())[-1]:
+   the LAST column of vh^dagger, i.e. the conjugated last row of vh *)
+Definition svd_pick (N : nat) (vh : fmx) : fvec := fun k => cj (vh N.-1 k).
+
 (* _steadystate_power: rho + rho.dag(); / tr *)
 Definition power_post n (y : fvec) :=
   let S := herm2 (unstack n y) in (S, ftr n S).
@@ -154,6 +158,36 @@ Definition power_result (maxiter : nat) (conv : nat -> bool) : option nat :=
   let it := power_loop maxiter maxiter 0 conv in
   if (maxiter <= it) && ~~ conv it then None else Some it.
 
+(* ---- _steadystate_eigen (with the dense fallback of 8c089c3):
+     val, vec = LdL.eigenstates(eigvals=1, sort="low", sparse=sparse)
+     if sparse and abs(val[0]) > 1e-8 * norm.max(LdL): val, vec = ...(sparse=False)
+   big = "the sparse solver's lowest eigenvalue fails the smallness test" *)
+Definition eigen_calls (sparse big : bool) : seq bool :=
+  if sparse then (if big then [:: true; false] else [:: true]) else [:: false].
+Definition eigen_pick (V : Type) (sparse big : bool) (v_sparse v_dense : V) : V :=
+  if sparse && ~~ big then v_sparse else v_dense.
+
+(* ---- _steadystate_expm (method "propagator"):
+     niter = 0
+     while niter < max_iter:
+         rho_next = normalise(prop(rho))
+         if hilbert_dist(rho_next, rho) <= tol: return rho_next
+         rho = rho_next; prop = prop @ prop; niter += 1
+     raise RuntimeError
+   conv k = "the distance test passes in iteration k"; the propagator used in
+   iteration k is sq_iter prop k *)
+Fixpoint expm_loop (fuel max_iter it : nat) (conv : nat -> bool) : option nat :=
+  match fuel with
+  | 0 => None
+  | fuel'.+1 => if it < max_iter
+                then (if conv it then Some it else expm_loop fuel' max_iter it.+1 conv)
+                else None
+  end.
+Definition expm_result (max_iter : nat) (conv : nat -> bool) : option nat :=
+  expm_loop max_iter max_iter 0 conv.
+Fixpoint sq_iter (T : Type) (mul : T -> T -> T) (p : T) (k : nat) : T :=
+  if k is k'.+1 then let q := sq_iter mul p k' in mul q q else p.
+
 (* ---- solve_csr_dense / solve_dia_dense: dispatch on what the scipy routine
    returned (qutip/core/data/solve.py, after `out = solver(M, b, **options)`):
      tuple of length 2  (x, info): iterative solver; info = 0 success,
@@ -197,6 +231,12 @@ Definition gz_eigen_post n v :=
   let (V, d) := eigen_post gz0 gzadd n (of_list v) in (tab_mx n n V, d).
 Definition gz_svd_post n v :=
   let (V, d) := svd_post gz0 gzadd n (of_list v) in (tab_mx n n V, d).
+Definition gz_svd_route n vh :=
+  let v := svd_pick gzcj (n * n) (of_rows vh) in
+  let (V, d) := svd_post gz0 gzadd n v in (tab_mx n n V, d).
+Definition gz_mulmx N A B := tab_mx N N (fmulmx gz0 gzadd gzmul N (of_rows A) (of_rows B)).
+Definition gz_sq_iter N P k :=
+  tab_mx N N (sq_iter (fmulmx gz0 gzadd gzmul N) (of_rows P) k).
 Definition gz_power_post n v :=
   let (V, d) := power_post gz0 gzadd gzcj n (of_list v) in (tab_mx n n V, d).
 Definition gz_pinv_R n rho LIQ :=
